@@ -56,7 +56,7 @@ def fixed_indices(atoms):
     idx = []
     for c in atoms.constraints:
         if isinstance(c, FixAtoms):
-            idx.extend(int(i) for i in c.index)
+            idx.extend(int(i) % len(atoms) for i in c.index)  # negative indices count from the end, as ASE resolves them
     return sorted(set(idx))
 
 
@@ -82,7 +82,7 @@ def run_mc(spec, rec):
                 a["constraints"] = ["FixAtoms:framework"]
             s["table"] = [e for e in s["table"] if "+" not in table_shape({"table": [e]}) or "E" not in table_shape({"table": [e]})] or s["table"][:1]
         else:
-            s["atoms"]["constraints"] = [["FixAtoms:first1"], ["FixCom"], ["FixAtoms:last2"], ["FixCom"]][int(rng.integers(4))]
+            s["atoms"]["constraints"] = [["FixAtoms:first1"], ["FixCom"], ["FixAtoms:last2"], ["FixCom"], ["FixAtoms:neglast2"], ["FixAtoms:masklast1"]][int(rng.integers(6))]
             if s["atoms"].get("kind") != "molecules":
                 s["atoms"]["n"] = max(3, s["atoms"].get("n", 3))
         shape = table_shape(s)
@@ -102,7 +102,7 @@ def run_mc(spec, rec):
                 mc.run(3)
                 n_ = len(mc.atoms)
                 c_ = late_cons[0]
-                mc.atoms.set_constraint(FixCom() if c_ == "FixCom" else FixAtoms(indices=[0] if c_.endswith("first1") else [n_ - 2, n_ - 1]))
+                mc.atoms.set_constraint(FixCom() if c_ == "FixCom" else FixAtoms(indices=[0] if c_.endswith("first1") else ([-2, -1] if "neg" in c_ else [n_ - 2, n_ - 1])))
                 rec.count("simulations_constrained_after_free_steps")
         except Exception as ex:  # noqa: BLE001
             rec.viol(f"C12/build-raised/{classify_exception(ex)}", f"building raised {ex}"[:300], wit0)
